@@ -23,7 +23,9 @@ printed in XSD 1.1 Part 2, `decimal`, `float`, `bytes.fromhex`, `base64`.
 
 Outside: full Name/NCName/language/anyURI character classes (alphabet representatives only);
 xs:untypedAtomic -> xs:QName; xs:NOTATION; XPath 2.0 casts to xs:QName (literal-only rule);
-xs:float subnormals; literals with more than 8-digit year / duration components (LIMIT).
+xs:float subnormals; literals with more than 8-digit year / duration components (pseudo error LIMIT);
+xs:anyURI literals containing ':', '%' or '#' and February 29 of a BCE year under XSD 1.0 (pseudo
+error UNSPEC: the W3C text leaves them to the implementation); error codes other than FORG0001 vs FOCA0002.
 """
 from __future__ import annotations
 
@@ -498,7 +500,7 @@ def judge(exp, obs, ver: str, code_matters: bool):
             return 'accepts_invalid'
         return f'{obs[0]}:{obs[1]}'
     if obs[0] == 'err':
-        return f'rejects_valid'
+        return 'rejects_valid'
     if obs[0] != 'val':
         return f'{obs[0]}:{obs[1]}'
     out = conforms(exp, obs[1], ver)
@@ -810,7 +812,6 @@ def run(chk: core.Check) -> None:
         'double/float values with more than 15 significant digits and xs:float -> xs:double widening are compared approximately and are terminal; xs:float subnormals not enumerated',
         'error codes compared only between FORG0001 and FOCA0002; otherwise only value vs ElementPathError',
     ]
-    total_states = 0     # states of the dumped graphs (= TLC distinct states)
     for name, consts in TIERS[chk.tier]:
         wd = os.path.join(chk.scratch, name)
         dot = os.path.join(wd, 'g.dot')
@@ -821,7 +822,6 @@ def run(chk: core.Check) -> None:
         chk.coverage.setdefault('constants', {})[name] = core.jsonable(consts)
         g = tla.load_dot(dot)
         os.remove(dot)
-        total_states += len(g.states)
         # anti-vacuity: every action fired; every type has accepted and (unless it accepts every string) rejected literals
         fired = {a for _, _, a, _ in g.edges}
         need = {'Pick', 'Construct', 'ToStr'} | ({'Cast', 'Castable'} if consts['Targets'] else set())
